@@ -87,8 +87,7 @@ class Violation(Exception):
 #
 #   ('int', v, bits, signed)                concrete integer / bool (bits=1) / char
 #   ('cell', cid, tid, bits, signed)        tables[tid][byte value of cell cid]
-#   ('lin', terms, const, bits, signed)     sum of tables[tid][cell] over terms=((cid,tid),..) + const
-#   ('sym', terms, const, bits, signed)     linear form over symbols: terms=((sym, coef),..) sorted
+#   ('sym', terms, const, bits, signed)     linear form: terms=((key, coef),..); key = symbol name or ('c', cell, table)
 #   ('ptr', loc)                            thin pointer / reference
 #   ('fat', loc, meta, summ)                wide pointer: meta = length value; summ = region summary
 #   ('agg', fields)   ('enum', variant, fields)   ('union', field, value)
@@ -151,12 +150,18 @@ class Tables:
 TABLES = Tables()
 
 
+def term_key(sc):
+    s = sc[0]
+    return (0, s, ()) if isinstance(s, str) else (1, "", s)
+
+
 def sym_norm(terms, const, bits, signed):
-    """Normalise a symbolic linear form; collapse to int when no symbol remains."""
+    """Normalise a symbolic linear form; collapse to int when no symbol remains.
+    Term keys: strings (position tokens, counters, capacities) or ('c', cell, table)."""
     d = {}
     for s, c in terms:
         d[s] = d.get(s, 0) + c
-    t = tuple(sorted((s, c) for s, c in d.items() if c != 0))
+    t = tuple(sorted(((s, c) for s, c in d.items() if c != 0), key=term_key))
     if not t:
         return mk_int(const, bits, signed)
     return ("sym", t, const, bits, signed)
@@ -168,6 +173,8 @@ def sym_of(v):
         return {}, v[1]
     if v[0] == "sym":
         return dict(v[1]), v[2]
+    if v[0] == "cell":
+        return {("c", v[1], v[2]): 1}, 0
     raise Unanalysable("not a symbolic integer: %r" % (v[0],))
 
 
@@ -176,7 +183,14 @@ def sym_add(a, b, sign=1, bits=None, signed=None):
     tb, cb = sym_of(b)
     for s, c in tb.items():
         ta[s] = ta.get(s, 0) + sign * c
-    return sym_norm(ta.items(), ca + sign * cb, a[3] if bits is None else bits, a[4] if signed is None else signed)
+    if bits is None:
+        src = a if a[0] != "int" else (b if b[0] != "int" else a)
+        bits, sg = (src[2], src[3]) if src[0] == "int" else (src[3], src[4])
+        if signed is None:
+            signed = sg
+    elif signed is None:
+        signed = False
+    return sym_norm(ta.items(), ca + sign * cb, bits, signed)
 
 
 # =============================================================================================
@@ -303,28 +317,38 @@ class State:
         return lo, ex
 
     def rel_pos(self, terms, const):
-        """Interval (lo, hi) of an address expression relative to the cursor (hi None = +inf),
-        or None if it is not an address in the input buffer."""
-        lo = hi = const
+        """Bounds (lo, hi, coefsum) of a linear expression over position tokens ('B', 'T<n>',
+        'E'): for coefsum 0 the value itself, for coefsum 1 the value relative to the cursor.
+        hi/lo None = unbounded.  None if a term is not a tracked position."""
         coefsum = 0
-        for s, c in terms:
+        w = {}
+        for s_, c in terms:
             coefsum += c
-            if s == "E":
-                rlo = len(self.tape)
-                rhi = rlo if self.eof else None
-                a, b = (rlo, rhi)
-            elif s[0] in "BT" and s in self.chain:
-                dlo, ex = self.tok_dist(s)
-                a, b = (-dlo, -dlo) if ex else (None, -dlo)
-            else:
+            w[s_] = w.get(s_, 0) + c
+        if coefsum not in (0, 1):
+            return None
+        # positions in order: chain[0..n-1], CUR, E ; segment k lies between position k and k+1
+        order = list(self.chain) + ["$CUR", "E"]
+        for s_ in w:
+            if s_ not in order:
                 return None
-            # multiply interval [a,b] by c
-            if c < 0:
-                a, b = (None if b is None else c * b), (None if a is None else c * a)
+        if coefsum == 1:
+            w["$CUR"] = w.get("$CUR", 0) - 1
+        segs = list(self.gaps) + [self.cur_gap, (len(self.tape), self.eof)]
+        # weight of segment k = sum of coefficients of positions after it
+        lo = hi = const
+        suffix = 0
+        for k in range(len(order) - 1, 0, -1):
+            suffix += w.get(order[k], 0)
+            if suffix == 0:
+                continue
+            glo, gex = segs[k - 1]
+            if suffix > 0:
+                lo = None if lo is None else lo + suffix * glo
+                hi = None if (hi is None or not gex) else hi + suffix * glo
             else:
-                a, b = (None if a is None else c * a), (None if b is None else c * b)
-            lo = None if (lo is None or a is None) else lo + a
-            hi = None if (hi is None or b is None) else hi + b
+                hi = None if hi is None else hi + suffix * glo
+                lo = None if (lo is None or not gex) else lo + suffix * glo
         return lo, hi, coefsum
 
     def advance(self, n):
@@ -567,6 +591,13 @@ class Machine:
             return self.nav(st, self.static_value(loc[1]), loc[2])
         if k == "A":
             return self.decode_alloc(loc[1], loc[2], tid)
+        if k == "K":
+            key = ("K", loc[1], loc[2], loc[3])
+            v = self.static_cache.get(key)
+            if v is None:
+                v = self.decode_alloc(loc[1], loc[2], loc[3])
+                self.static_cache[key] = v
+            return self.nav(st, v, loc[4])
         if k == "U":
             raise Unanalysable("read of an unsized place")
         if k == "Z":
@@ -607,7 +638,7 @@ class Machine:
     def elem_loc(self, st, loc0, i):
         """Location of element i of a sequence whose element 0 lives at loc0 (i: int value)."""
         k = loc0[0]
-        if k in ("L", "H", "S"):
+        if k in ("L", "H", "S", "K"):
             path = loc0[-1]
             if not path or not isinstance(path[-1], int):
                 if i[0] == "int" and i[1] == 0:
@@ -728,6 +759,8 @@ class Machine:
             raise Violation("infeasible")
         if const:
             return mk_int(first, bits, signed)
+        if mask != FULL:
+            tab = tuple(tab[i] if (mask >> i) & 1 else 0 for i in range(256))
         return ("cell", cid, TABLES.intern(tab), bits, signed)
 
     def cell_range(self, st, v):
@@ -735,32 +768,21 @@ class Machine:
         vals = [tab[b] for b in mask_vals(st.cells[v[1]])]
         return min(vals), max(vals)
 
-    def lin_range(self, st, v):
-        lo = hi = v[2]
-        for cid, tid in v[1]:
-            tab = TABLES.get(tid)
-            vals = [tab[b] for b in mask_vals(st.cells[cid])]
-            lo += min(vals)
-            hi += max(vals)
-        return lo, hi
-
-    def as_lin(self, v):
-        if v[0] == "int":
-            return (), v[1]
-        if v[0] == "cell":
-            return ((v[1], v[2]),), 0
-        if v[0] == "lin":
-            return v[1], v[2]
-        raise Unanalysable("not a byte-derived integer: %s" % v[0])
-
-    def partition(self, st, v):
-        """Fork on the value of a single-cell expression."""
+    def partition(self, st, v, keyfn=None):
+        """Fork on the value of a single-cell expression (or on keyfn(value) when given: the
+        caller only needs to distinguish the classes keyfn induces, e.g. switch targets)."""
         tab = TABLES.get(v[2])
         groups = {}
+        rep = {}
         for b in mask_vals(st.cells[v[1]]):
-            groups.setdefault(tab[b], 0)
-            groups[tab[b]] |= 1 << b
+            k = tab[b] if keyfn is None else keyfn(tab[b])
+            groups.setdefault(k, 0)
+            groups[k] |= 1 << b
+            rep[k] = tab[b]
         cid = v[1]
+        if len(groups) == 1:
+            (k, _), = groups.items()
+            return mk_int(rep[k], v[3], v[4])
         choices = []
         for val, m in sorted(groups.items()):
             choices.append(("cell%d=%s" % (cid, mask_str(m)), (lambda mm: (lambda s: s.refine(cid, mm)))(m)))
@@ -774,12 +796,18 @@ class Machine:
         terms, const = v[1], v[2]
         pos_terms = []
         other = []
+        lo = hi = const
         for s, c in terms:
             if isinstance(s, str) and (s == "E" or (s[0] in "BT" and s in st.chain)):
                 pos_terms.append((s, c))
+            elif isinstance(s, tuple) and s[0] == "c":
+                tab = TABLES.get(s[2])
+                vals = [tab[b] for b in mask_vals(st.cells[s[1]])]
+                a, b_ = c * min(vals), c * max(vals)
+                lo += min(a, b_)
+                hi += max(a, b_)
             else:
                 other.append((s, c))
-        lo = hi = const
         if pos_terms:
             r = st.rel_pos(tuple(pos_terms), 0)
             if r is None:
@@ -787,7 +815,7 @@ class Machine:
             plo, phi, coefsum = r
             if coefsum != 0:
                 # an absolute address: only known to be a non-null, non-wrapping machine address
-                return (1 if all(c > 0 for _, c in pos_terms) else None), None
+                return (1 if all(c > 0 for _, c in pos_terms) and not other else None), None
             lo = None if plo is None else lo + plo
             hi = None if phi is None else hi + phi
         if other:
@@ -850,7 +878,19 @@ class Machine:
             if rest[0] == "int":
                 k0 = rest[1]
                 return self.fork_other(st, op, other, k0)
+        self.split_cell_term(st, d)
         raise Unanalysable("cannot decide %s on symbolic integers %s" % (op, self.show_sym(d)))
+
+    def split_cell_term(self, st, v):
+        """Fork on the cell with the fewest values among the cell terms of v (if any)."""
+        cands = sorted((bin(st.cells[s[1]]).count("1"), s[1]) for s, c in v[1] if isinstance(s, tuple) and s[0] == "c")
+        if cands and cands[0][0] <= 64:
+            cid = cands[0][1]
+            r = self.partition(st, ("cell", cid, TABLES.ident, 8, False))
+            # single value: nothing to split on this cell; try the next one
+            for n, cid in cands[1:]:
+                if n > 1 and n <= 64:
+                    self.partition(st, ("cell", cid, TABLES.ident, 8, False))
 
     def cmp_from_bounds(self, op, lo, hi):
         # compares (value in [lo,hi]) against 0
@@ -935,7 +975,7 @@ class Machine:
             return str(v[1])
         parts = []
         for s, c in v[1]:
-            parts.append(("" if c == 1 else "-" if c == -1 else "%d*" % c) + (s if isinstance(s, str) else str(s)))
+            parts.append(("" if c == 1 else "-" if c == -1 else "%d*" % c) + (s if isinstance(s, str) else ("f%d(byte#%d)" % (s[2], s[1]) if s[0] == "c" else str(s))))
         if v[2]:
             parts.append(str(v[2]))
         return " + ".join(parts)
@@ -1019,6 +1059,8 @@ class Machine:
             if pointee["k"] in ("slice", "str"):
                 ln = rd_int(off + self.p.ptr_bytes, self.p.ptr_bytes)
                 return ("fat", base, mk_int(ln, self.p.ptr_bytes * 8), None)
+            if base[0] == "A":
+                base = ("K", base[1], base[2], t["to"], ())
             return ("ptr", base)
         raise Unanalysable("constant of type %s" % t["s"])
 
@@ -1051,6 +1093,11 @@ class Machine:
         if k == "zst":
             if t["k"] == "fndef":
                 return ("zst", tid)
+            if t["k"] == "adt" and t["adt_kind"] == "enum":
+                lv = t.get("layout_variants")
+                if lv and lv["k"] == "single":
+                    vi = lv["index"]
+                    return ("enum", vi, tuple(self.skeleton(f["ty"]) for f in t["variants"][vi]["fields"]))
             sk = self.skeleton(tid)
             return sk if sk != UNINIT else ("zst", tid)
         if k == "slice":
@@ -1070,6 +1117,8 @@ class Machine:
             loc = self.alloc_loc(v["alloc"], v["off"])
             if loc[0] == "FN":
                 return ("fn", loc[1])
+            if loc[0] == "A" and t["k"] in ("ref", "ptr") and self.ty(t["to"])["k"] not in ("slice", "str"):
+                loc = ("K", loc[1], loc[2], t["to"], ())
             return ("ptr", loc)
         raise Unanalysable("constant kind %s" % k)
 
@@ -1148,6 +1197,8 @@ class Machine:
             return (k, loc[1], loc[2], loc[3] + (e,))
         if k == "A":
             raise Unanalysable("field projection into constant memory")
+        if k == "K":
+            return (k, loc[1], loc[2], loc[3], loc[4] + (e,))
         if k == "B":
             raise Unanalysable("field projection into the input buffer")
         if k == "Z":
@@ -1288,12 +1339,6 @@ class Machine:
         if k == "cell":
             tab = TABLES.get(v[2])
             return self.mk_cell(st, v[1], tuple(wrap(x, bits, signed) for x in tab), bits, signed)
-        if k == "lin":
-            lo, hi = self.lin_range(st, v)
-            tlo, thi = int_range(bits, signed)
-            if tlo <= lo and hi <= thi:
-                return ("lin", v[1], v[2], bits, signed)
-            raise Unanalysable("truncating cast of multi-byte linear form")
         if k == "sym":
             if bits == v[3]:
                 return ("sym", v[1], v[2], bits, signed)
@@ -1445,11 +1490,11 @@ class Machine:
             return lanes.binop(self, st, op, a, b)
         # symbolic integers
         if ka == "sym" or kb == "sym":
-            if ka not in ("sym", "int") or kb not in ("sym", "int"):
-                raise Unanalysable("mixing symbolic and byte-derived integers in %s" % op)
+            if ka not in ("sym", "int", "cell") or kb not in ("sym", "int", "cell"):
+                raise Unanalysable("operator %s on %s,%s" % (op, ka, kb))
             if op in CMP_OPS:
                 return mk_bool(self.decide_sym_cmp(st, op, a, b))
-            bits, signed = (a[3], a[4]) if ka == "sym" else (b[3], b[4])
+            bits, signed = (a[3], a[4]) if ka != "int" else (b[3], b[4])
             if op in ("Add", "AddUnchecked", "AddWithOverflow", "Sub", "SubUnchecked", "SubWithOverflow"):
                 sign = 1 if op.startswith("Add") else -1
                 r = sym_add(a, b, sign, bits, signed)
@@ -1470,13 +1515,21 @@ class Machine:
                 return r
             if op in ("Mul", "MulUnchecked", "MulWithOverflow") and (ka == "int" or kb == "int"):
                 k_, s_ = (a[1], b) if ka == "int" else (b[1], a)
-                r = sym_norm([(s, c * k_) for s, c in s_[1]], s_[2] * k_, bits, signed)
+                ts, cs = sym_of(s_)
+                r = sym_norm([(s, c * k_) for s, c in ts.items()], cs * k_, bits, signed)
+                lo, hi = self.sym_bounds(st, sym_norm([(s, c * k_) for s, c in ts.items()], cs * k_, 0, True))
+                tlo, thi = int_range(bits, signed)
+                fits = lo is not None and hi is not None and tlo <= lo and hi <= thi
                 if with_ovf:
-                    return ("agg", (r, ("top", "possible-overflow")))
+                    return ("agg", (r, FALSE if fits else ("top", "possible-overflow")))
+                if op.endswith("Unchecked"):
+                    self.oblige(st, "unchecked-arith", fits, "%s may overflow: %s" % (op, self.show_sym(r)))
+                elif not fits:
+                    self.oblige(st, "no-wrap", fits, "%s may wrap: %s" % (op, self.show_sym(r)))
                 return r
             raise Unanalysable("operator %s on symbolic integers" % op)
         # byte-derived integers
-        if ka in ("cell", "lin", "int") and kb in ("cell", "lin", "int"):
+        if ka in ("cell", "int") and kb in ("cell", "int"):
             return self.byte_binop(st, op, a, b, with_ovf)
         if ka in ("uninit", "hist", "top") or kb in ("uninit", "hist", "top"):
             bad = a if ka in ("uninit", "hist", "top") else b
@@ -1521,62 +1574,11 @@ class Machine:
                 ov = self.mk_cell(st, cid, tuple(ovs), 1, False)
                 self.oblige(st, "unchecked-arith", ov == FALSE, "%s may overflow" % op)
             return rv
-        # multi-cell linear forms
-        if op in ("Add", "AddUnchecked", "AddWithOverflow", "Sub", "SubUnchecked", "SubWithOverflow"):
-            sign = 1 if op.startswith("Add") else -1
-            t1, c1 = self.as_lin(a)
-            t2, c2 = self.as_lin(b)
-            if sign == -1:
-                t2 = tuple((cid, TABLES.intern(tuple(-x for x in TABLES.get(tid)))) for cid, tid in t2)
-                c2 = -c2
-            if set(c for c, _ in t1) & set(c for c, _ in t2):
-                raise Unanalysable("linear form with repeated cell")
-            r = ("lin", t1 + t2, c1 + c2, bits, signed)
-            lo, hi = self.lin_range(st, r)
-            tlo, thi = int_range(bits, signed)
-            fits = tlo <= lo and hi <= thi
-            if with_ovf:
-                if fits:
-                    return ("agg", (r, FALSE))
-                return ("agg", (("top", "overflowed"), ("top", "possible-overflow")))
-            if not fits:
-                if op.endswith("Unchecked"):
-                    self.oblige(st, "unchecked-arith", False, "%s may overflow" % op)
-                self.oblige(st, "no-wrap", False, "%s on byte-derived value may wrap (range %d..%d)" % (op, lo, hi))
-            return r
-        if op in ("Mul", "MulUnchecked", "MulWithOverflow") and (ka == "int" or kb == "int"):
-            k_, s_ = (a[1], b) if ka == "int" else (b[1], a)
-            t1, c1 = self.as_lin(s_)
-            r = ("lin", tuple((cid, TABLES.intern(tuple(x * k_ for x in TABLES.get(tid)))) for cid, tid in t1), c1 * k_, bits, signed)
-            lo, hi = self.lin_range(st, r)
-            tlo, thi = int_range(bits, signed)
-            fits = tlo <= lo and hi <= thi
-            if with_ovf:
-                if fits:
-                    return ("agg", (r, FALSE))
-                return ("agg", (("top", "overflowed"), ("top", "possible-overflow")))
-            if not fits:
-                self.oblige(st, "no-wrap", False, "%s on byte-derived value may wrap (range %d..%d)" % (op, lo, hi))
-            return r
-        if op in CMP_OPS:
-            t1, c1 = self.as_lin(a)
-            t2, c2 = self.as_lin(b)
-            t2n = tuple((cid, TABLES.intern(tuple(-x for x in TABLES.get(tid)))) for cid, tid in t2)
-            if set(c for c, _ in t1) & set(c for c, _ in t2n):
-                raise Unanalysable("comparison of forms sharing a cell")
-            d = ("lin", t1 + t2n, c1 - c2, 0, True)
-            lo, hi = self.lin_range(st, d)
-            res = self.cmp_from_bounds(op, lo, hi)
-            if res is not None:
-                return mk_bool(res)
-            # fork on the smallest cell involved
-            cands = [(bin(st.cells[cid]).count("1"), cid, tid) for cid, tid in d[1]]
-            cands.sort()
-            n, cid, tid = cands[0]
-            if n > 32:
-                raise Unanalysable("comparison of wide byte-derived values")
-            self.partition(st, ("cell", cid, TABLES.ident))
-        raise Unanalysable("operator %s on byte-derived integers (%s,%s)" % (op, ka, kb))
+        # two different cells: a linear form over both (symbolic integer with cell terms)
+        if op in ("Add", "AddUnchecked", "AddWithOverflow", "Sub", "SubUnchecked", "SubWithOverflow") or op in CMP_OPS:
+            sa = ("sym", ((("c", a[1], a[2]), 1),), 0, a[3], a[4])
+            return self.binop(st, op, sa, b)
+        raise Unanalysable("operator %s on two different input bytes" % op)
 
     def ptr_binop(self, st, op, a, b):
         pb = self.p.ptr_bytes * 8
@@ -1609,7 +1611,7 @@ class Machine:
         if k == "int":
             return v
         if k == "cell":
-            self.partition(st, v)
+            return self.partition(st, v)
         if k == "env":
             name, pos = v[1], v[2]
             if name in st.env:
@@ -1624,18 +1626,11 @@ class Machine:
         if k in ("wtest", "wlane", "word", "bitv"):
             from . import lanes
             return lanes.concretize(self, st, v)
-        if k == "lin":
-            lo, hi = self.lin_range(st, v)
-            if lo == hi:
-                return mk_int(lo, v[3], v[4])
-            cands = sorted((bin(st.cells[cid]).count("1"), cid) for cid, _ in v[1])
-            if cands[0][0] <= 32:
-                self.partition(st, ("cell", cands[0][1], TABLES.ident))
-            raise Unanalysable("branch on wide byte-derived value")
         if k == "sym":
             lo, hi = self.sym_bounds(st, v)
             if lo is not None and lo == hi:
                 return mk_int(lo, v[3], v[4])
+            self.split_cell_term(st, v)
             raise Unanalysable("branch on symbolic integer %s" % self.show_sym(v))
         if k in ("uninit", "hist", "top"):
             self.violate(st, "use-of-%s-value" % k, "control flow depends on a value that is %s (%s)" % (k, v[1:] and v[1]))
@@ -1709,7 +1704,12 @@ class Machine:
                 i = lanes.switch_word(self, st, v, t["targets"])
                 self.goto(st, fr, t["targets"][i][1] if i is not None else t["otherwise"])
                 return
-            c = self.concretize(st, v)
+            if v[0] == "cell":
+                bits = self.int_ty(t["ty"])[0]
+                tmap = {tv: bb for tv, bb in t["targets"]}
+                c = self.partition(st, v, lambda x: tmap.get(x & ((1 << bits) - 1), -1))
+            else:
+                c = self.concretize(st, v)
             val = c[1]
             if val < 0:
                 bits = self.int_ty(t["ty"])
